@@ -1,14 +1,15 @@
 #!/bin/sh
-# usage: tryseed.sh <patch.diff> [ids...]  -- applies a seeded mutation to /repo, runs checks, reverts. Prints which checks fired.
-P="$1"; shift
-cd /repo || exit 2
-git diff --quiet || { echo "repo has uncommitted changes"; exit 2; }
-git apply "$P" || { echo "patch does not apply"; exit 2; }
-trap 'git -C /repo checkout -- . ' EXIT
+# usage: tryseed.sh <patch.diff> [ids...]  -- applies a seeded mutation to a scratch worktree of /repo HEAD and runs checks on it
+# through VERIF_REPO (evidence of /repo is not touched). Prints which checks fired.
+P=$(readlink -f "$1"); shift
+W=$(mktemp -d /tmp/ts-XXXXXX); rmdir $W
+git -C /repo worktree add --detach $W HEAD >/dev/null 2>&1 || exit 2
+trap 'git -C /repo worktree remove --force '$W' 2>/dev/null; rm -rf '$W EXIT
+git -C $W apply "$P" || { echo "patch does not apply"; exit 2; }
 cd /verif
 if [ $# -eq 0 ]; then set -- $(python3 -c "import json;print(' '.join(c['property_id'] for c in json.load(open('/verif/MANIFEST.json'))['checks']))"); fi
 for id in "$@"; do
-  out=$(./check $id 2>&1); rc=$?
+  out=$(VERIF_REPO=$W ./check $id 2>&1); rc=$?
   n=$(echo "$out" | grep -c '^VIOLATION')
   if [ $rc -ne 0 ]; then echo "$id: FIRED ($n violations)"; echo "$out" | grep -v '^VIOLATION' | grep "^$id: \[" | head -4 | cut -c1-260; else echo "$id: silent"; fi
 done
